@@ -13,7 +13,9 @@ import (
 	"go/types"
 	"runtime"
 	"slices"
+	"sort"
 	"strings"
+	"sync"
 
 	"golang.org/x/tools/go/ssa"
 )
@@ -67,7 +69,8 @@ type frame struct {
 	caller           *frame
 	fn               *ssa.Function
 	block, prevBlock *ssa.BasicBlock
-	env              map[ssa.Value]value // dynamic values of SSA variables
+	env              []value // dynamic values of SSA variables, indexed by info.index
+	info             *fnInfo
 	locals           []value
 	defers           *deferred
 	result           value
@@ -87,10 +90,58 @@ func (fr *frame) get(key ssa.Value) value {
 	case *ssa.Global:
 		return fr.i.global(key)
 	}
-	if r, ok := fr.env[key]; ok {
-		return r
+	if k, ok := fr.info.index[key]; ok {
+		return fr.env[k]
 	}
 	panic(fmt.Sprintf("get: no value for %T: %v", key, key.Name()))
+}
+
+func (fr *frame) set(key ssa.Value, v value) {
+	fr.env[fr.info.index[key]] = v
+}
+
+// fnInfo numbers the SSA values of a function so that frames can keep them in a slice.
+type fnInfo struct {
+	index map[ssa.Value]int32
+	n     int
+}
+
+func (e *Engine) infoFor(fn *ssa.Function) *fnInfo {
+	if v, ok := e.fnInfos.Load(fn); ok {
+		return v.(*fnInfo)
+	}
+	info := &fnInfo{index: map[ssa.Value]int32{}}
+	add := func(v ssa.Value) {
+		if _, ok := info.index[v]; !ok {
+			info.index[v] = int32(info.n)
+			info.n++
+		}
+	}
+	for _, p := range fn.Params {
+		add(p)
+	}
+	for _, fv := range fn.FreeVars {
+		add(fv)
+	}
+	for _, l := range fn.Locals {
+		add(l)
+	}
+	for _, b := range fn.Blocks {
+		for _, in := range b.Instrs {
+			if v, ok := in.(ssa.Value); ok {
+				add(v)
+			}
+		}
+	}
+	if fn.Recover != nil {
+		for _, in := range fn.Recover.Instrs {
+			if v, ok := in.(ssa.Value); ok {
+				add(v)
+			}
+		}
+	}
+	e.fnInfos.Store(fn, info)
+	return info
 }
 
 func (i *interpreter) global(g *ssa.Global) *value {
@@ -134,6 +185,7 @@ func (i *interpreter) initPackage(pkg *ssa.Package) {
 			}()
 			callSSA(i, nil, token.NoPos, init, nil, nil)
 		}()
+		i.path.initSteps += i.path.steps - saveSteps
 		i.path.steps = saveSteps // initialisation is not charged to the path budget
 	}
 }
@@ -185,8 +237,41 @@ func (fr *frame) runDefers() {
 	}
 }
 
+var (
+	envProf   map[*ssa.Function]int64
+	envProfMu sync.Mutex
+)
+
+// EnableEnvProfile / DumpEnvProfile: development aid, which functions allocate the most frame slots.
+func EnableEnvProfile() { envProf = map[*ssa.Function]int64{} }
+func DumpEnvProfile() {
+	type kv struct {
+		f *ssa.Function
+		n int64
+	}
+	var l []kv
+	for f, n := range envProf {
+		l = append(l, kv{f, n})
+	}
+	sort.Slice(l, func(a, b int) bool { return l[a].n > l[b].n })
+	for k := 0; k < len(l) && k < 15; k++ {
+		fmt.Println(l[k].n, l[k].f.String())
+	}
+}
+
+type methodKey struct {
+	t types.Type
+	m *types.Func
+}
+
 func lookupMethod(i *interpreter, typ types.Type, meth *types.Func) *ssa.Function {
-	return i.prog.LookupMethod(typ, meth.Pkg(), meth.Name())
+	key := methodKey{typ, meth}
+	if v, ok := i.eng.methodCache.Load(key); ok {
+		return v.(*ssa.Function)
+	}
+	f := i.prog.LookupMethod(typ, meth.Pkg(), meth.Name())
+	i.eng.methodCache.Store(key, f)
+	return f
 }
 
 func nilDeref() targetPanic {
@@ -210,43 +295,43 @@ func visitInstr(fr *frame, instr ssa.Instruction) continuation {
 		// no-op
 
 	case *ssa.UnOp:
-		fr.env[instr] = i.unop(instr, fr.get(instr.X))
+		fr.set(instr, i.unop(instr, fr.get(instr.X)))
 
 	case *ssa.BinOp:
-		fr.env[instr] = i.binop(instr.Op, instr.X.Type(), fr.get(instr.X), fr.get(instr.Y))
+		fr.set(instr, i.binop(instr.Op, instr.X.Type(), fr.get(instr.X), fr.get(instr.Y)))
 
 	case *ssa.Call:
 		fn, args := prepareCall(fr, &instr.Call)
 		if i.initDepth > 0 && fr.fn.Synthetic != "" && fr.fn.Name() == "init" {
-			fr.env[instr] = permissiveCall(fr, instr, fn, args)
+			fr.set(instr, permissiveCall(fr, instr, fn, args))
 		} else {
-			fr.env[instr] = call(i, fr, instr.Pos(), fn, args)
+			fr.set(instr, call(i, fr, instr.Pos(), fn, args))
 		}
 
 	case *ssa.ChangeInterface:
-		fr.env[instr] = fr.get(instr.X)
+		fr.set(instr, fr.get(instr.X))
 
 	case *ssa.ChangeType:
-		fr.env[instr] = fr.get(instr.X) // (can't fail)
+		fr.set(instr, fr.get(instr.X)) // (can.t fail)
 
 	case *ssa.Convert:
-		fr.env[instr] = i.conv(instr.Type(), instr.X.Type(), fr.get(instr.X))
+		fr.set(instr, i.conv(instr.Type(), instr.X.Type(), fr.get(instr.X)))
 
 	case *ssa.MultiConvert:
-		fr.env[instr] = i.conv(instr.Type(), instr.X.Type(), fr.get(instr.X))
+		fr.set(instr, i.conv(instr.Type(), instr.X.Type(), fr.get(instr.X)))
 
 	case *ssa.SliceToArrayPointer:
-		fr.env[instr] = sliceToArrayPointer(instr.Type(), instr.X.Type(), fr.get(instr.X))
+		fr.set(instr, sliceToArrayPointer(instr.Type(), instr.X.Type(), fr.get(instr.X)))
 
 	case *ssa.MakeInterface:
-		fr.env[instr] = iface{t: instr.X.Type(), v: fr.get(instr.X)}
+		fr.set(instr, iface{t: instr.X.Type(), v: fr.get(instr.X)})
 
 	case *ssa.Extract:
 		tv := fr.get(instr.Tuple)
 		if p, ok := tv.(poison); ok {
-			fr.env[instr] = p
+			fr.set(instr, p)
 		} else {
-			fr.env[instr] = tv.(tuple)[instr.Index]
+			fr.set(instr, tv.(tuple)[instr.Index])
 		}
 
 	case *ssa.Slice:
@@ -264,7 +349,7 @@ func visitInstr(fr *frame, instr ssa.Instruction) continuation {
 		if s, ok := x.(symStr); ok {
 			x = i.concretizeStr(s)
 		}
-		fr.env[instr] = slice(x, lo, hi, mx)
+		fr.set(instr, slice(x, lo, hi, mx))
 
 	case *ssa.Return:
 		switch len(instr.Results) {
@@ -339,17 +424,17 @@ func visitInstr(fr *frame, instr ssa.Instruction) continuation {
 		i.spawn(fr, instr, fn, args)
 
 	case *ssa.MakeChan:
-		fr.env[instr] = i.makeChan(int(i.asIndex(fr.get(instr.Size))))
+		fr.set(instr, i.makeChan(int(i.asIndex(fr.get(instr.Size)))))
 
 	case *ssa.Alloc:
 		var addr *value
 		if instr.Heap {
 			// new
 			addr = new(value)
-			fr.env[instr] = addr
+			fr.set(instr, addr)
 		} else {
 			// local
-			addr = fr.env[instr].(*value)
+			addr = fr.get(instr).(*value)
 		}
 		*addr = zero(mustDeref(instr.Type()))
 
@@ -363,16 +448,16 @@ func visitInstr(fr *frame, instr ssa.Instruction) continuation {
 		for i := range slice {
 			slice[i] = zero(tElt)
 		}
-		fr.env[instr] = slice[:i.asIndex(fr.get(instr.Len))]
+		fr.set(instr, slice[:i.asIndex(fr.get(instr.Len))])
 
 	case *ssa.MakeMap:
-		fr.env[instr] = newMap()
+		fr.set(instr, newMap())
 
 	case *ssa.Range:
-		fr.env[instr] = rangeIter(i, fr.get(instr.X), instr.X.Type())
+		fr.set(instr, rangeIter(i, fr.get(instr.X), instr.X.Type()))
 
 	case *ssa.Next:
-		fr.env[instr] = fr.get(instr.Iter).(iter).next()
+		fr.set(instr, fr.get(instr.Iter).(iter).next())
 
 	case *ssa.FieldAddr:
 		p := fr.get(instr.X).(*value)
@@ -383,14 +468,14 @@ func visitInstr(fr *frame, instr ssa.Instruction) continuation {
 		if !ok {
 			panic(unsupported(fmt.Sprintf("field access into %T (%s)", *p, instr.X.Type())))
 		}
-		fr.env[instr] = &s[instr.Field]
+		fr.set(instr, &s[instr.Field])
 
 	case *ssa.Field:
 		s, ok := fr.get(instr.X).(structure)
 		if !ok {
 			panic(unsupported(fmt.Sprintf("field of %T (%s)", fr.get(instr.X), instr.X.Type())))
 		}
-		fr.env[instr] = s[instr.Field]
+		fr.set(instr, s[instr.Field])
 
 	case *ssa.IndexAddr:
 		x := fr.get(instr.X)
@@ -400,7 +485,7 @@ func visitInstr(fr *frame, instr ssa.Instruction) continuation {
 			if idx < 0 || idx >= int64(len(x)) {
 				panic(targetPanic{fmt.Sprintf("runtime error: index out of range [%d] with length %d", idx, len(x))})
 			}
-			fr.env[instr] = &x[idx]
+			fr.set(instr, &x[idx])
 		case *value: // *array
 			if x == nil {
 				panic(nilDeref())
@@ -409,7 +494,7 @@ func visitInstr(fr *frame, instr ssa.Instruction) continuation {
 			if idx < 0 || idx >= int64(len(a)) {
 				panic(targetPanic{fmt.Sprintf("runtime error: index out of range [%d] with length %d", idx, len(a))})
 			}
-			fr.env[instr] = &a[idx]
+			fr.set(instr, &a[idx])
 		default:
 			panic(unsupported(fmt.Sprintf("unexpected x type in IndexAddr: %T", x)))
 		}
@@ -425,12 +510,12 @@ func visitInstr(fr *frame, instr ssa.Instruction) continuation {
 			if idx < 0 || idx >= int64(len(x)) {
 				panic(targetPanic{fmt.Sprintf("runtime error: index out of range [%d] with length %d", idx, len(x))})
 			}
-			fr.env[instr] = x[idx]
+			fr.set(instr, x[idx])
 		case string:
 			if idx < 0 || idx >= int64(len(x)) {
 				panic(targetPanic{fmt.Sprintf("runtime error: index out of range [%d] with length %d", idx, len(x))})
 			}
-			fr.env[instr] = x[idx]
+			fr.set(instr, x[idx])
 		default:
 			panic(unsupported(fmt.Sprintf("unexpected x type in Index: %T", x)))
 		}
@@ -445,9 +530,9 @@ func visitInstr(fr *frame, instr ssa.Instruction) continuation {
 			if k < 0 || k >= int64(len(s)) {
 				panic(targetPanic{fmt.Sprintf("runtime error: index out of range [%d] with length %d", k, len(s))})
 			}
-			fr.env[instr] = s[k]
+			fr.set(instr, s[k])
 		default:
-			fr.env[instr] = lookup(instr, x, i.concreteKey(idx))
+			fr.set(instr, lookup(instr, x, i.concreteKey(idx)))
 		}
 
 	case *ssa.MapUpdate:
@@ -461,20 +546,20 @@ func visitInstr(fr *frame, instr ssa.Instruction) continuation {
 		if !ok {
 			panic(unsupported(fmt.Sprintf("type assertion on %T", x)))
 		}
-		fr.env[instr] = typeAssert(i, instr, itf)
+		fr.set(instr, typeAssert(i, instr, itf))
 
 	case *ssa.MakeClosure:
 		var bindings []value
 		for _, binding := range instr.Bindings {
 			bindings = append(bindings, fr.get(binding))
 		}
-		fr.env[instr] = &closure{instr.Fn.(*ssa.Function), bindings}
+		fr.set(instr, &closure{instr.Fn.(*ssa.Function), bindings})
 
 	case *ssa.Phi:
 		panic("unreachable: phis are processed at block entry")
 
 	case *ssa.Select:
-		fr.env[instr] = i.doSelect(fr, instr)
+		fr.set(instr, i.doSelect(fr, instr))
 
 	default:
 		panic(unsupported(fmt.Sprintf("unexpected instruction: %T", instr)))
@@ -565,24 +650,32 @@ func callSSA(i *interpreter, caller *frame, callpos token.Pos, fn *ssa.Function,
 	if i.eng.tracing {
 		fmt.Printf("%s> %s\n", strings.Repeat(" ", i.callDepth), fn.String())
 	}
-	if i.initDepth == 0 && fn.Pkg != nil && i.eng.inRepo(fn) {
-		i.path.funcs[fn.String()] = countInstrs(fn)
+	if i.initDepth == 0 {
+		if _, ok := i.path.funcsSeen[fn]; !ok {
+			i.path.funcsSeen[fn] = struct{}{}
+		}
 	}
 	i.callDepth++
 	defer func() { i.callDepth-- }()
 
-	fr.env = make(map[ssa.Value]value)
+	fr.info = i.eng.infoFor(fn)
+	if envProf != nil {
+		envProfMu.Lock()
+		envProf[fn] += int64(fr.info.n)
+		envProfMu.Unlock()
+	}
+	fr.env = make([]value, fr.info.n)
 	fr.block = fn.Blocks[0]
 	fr.locals = make([]value, len(fn.Locals))
 	for k, l := range fn.Locals {
 		fr.locals[k] = zero(mustDeref(l.Type()))
-		fr.env[l] = &fr.locals[k]
+		fr.set(l, &fr.locals[k])
 	}
 	for k, p := range fn.Params {
-		fr.env[p] = args[k]
+		fr.set(p, args[k])
 	}
 	for k, fv := range fn.FreeVars {
-		fr.env[fv] = env[k]
+		fr.set(fv, env[k])
 	}
 	for fr.block != nil {
 		runFrame(fr)
@@ -674,7 +767,7 @@ func executePhis(fr *frame) []ssa.Instruction {
 			fr.phitemps = append(fr.phitemps, fr.get(phi.Edges[predIndex]))
 		}
 		for i, phi := range phis {
-			fr.env[phi.(*ssa.Phi)] = fr.phitemps[i]
+			fr.set(phi.(*ssa.Phi), fr.phitemps[i])
 		}
 	}
 	return nonPhis
